@@ -1,99 +1,120 @@
 (* Props/C37.v — C37 "Template variables survive restart unchanged".
    Property theorems only; proofs are in Proofs/PyLitProofs.v.  The model
    (Model/PyLit.v: CPython repr of literal values, the canonical sub-language
-   of ast.literal_eval, the restart loader) is tied to
-   workflow_db_mgr.put_workflow_template_vars, templatevars.eval_var and
-   Scheduler._load_template_vars by the C37 correspondence stream.
+   of ast.literal_eval, eval_var with its acceptance check, the restart loader)
+   is tied to workflow_db_mgr.put_workflow_template_vars, templatevars.eval_var
+   and Scheduler._load_template_vars by the C37 correspondence stream.
+
+   Since /repo 7f9125e eval_var refuses a value whose repr it cannot read back,
+   so "accepted at first start" already excludes inf, -inf, nan and Ellipsis.
 
    External behaviour enters as Section variables, never as axioms:
      F, frepr, fparse   CPython floats, float.__repr__ and float(token)
      printable          str.isprintable
-     ffinite            which floats are finite
+     ffinite            CPython's classification of floats
    with the single hypothesis H_float: a finite float prints as a number token
-   (digits . e + -, not an integer literal) which float() maps back to it. *)
+   (digits . e + -, not an integer literal) which float() maps back to it, and
+   the other floats print as inf, -inf or nan. *)
 From Coq Require Import List Bool Arith ZArith Lia.
 From Cylc Require Import Base.Util Model.PyLit Proofs.PyLitProofs.
 Import ListNotations.
 
-(* Every value of the modelled literal types (None, bool, int of any size,
-   finite float, str over all code points 0..0x10FFFF with any quotes,
-   backslashes, control and non-printable characters, and list / tuple / set /
-   dict nested to any depth) is read back from its repr as the identical
-   value of the identical type.  [vwf] only asks for code points in range and
-   finite floats. *)
+(* Every value ACCEPTED by eval_var at first start - whatever text it was
+   written as, and with no restriction on its floats - is read back from the
+   text stored in the database (its repr) as the identical value of the
+   identical type, and eval_var accepts that text again on restart.  Values:
+   None, bool, int of any size, float, str over all code points with any
+   quotes / backslashes / control / non-printable characters, list / tuple /
+   set / dict nested to any depth.  [swf] only asks for code points in
+   0..0x10FFFF. *)
 Theorem c37_roundtrip :
   forall (F : Type) (frepr : F -> text) (fparse : text -> option F)
          (printable : Z -> bool) (ffinite : F -> bool),
-    (forall f, ffinite f = true ->
-       float_token (frepr f) = true /\ fparse (frepr f) = Some f) ->
-    forall v, vwf F ffinite v = true ->
-      parse F fparse (repr F frepr printable v) = Some v.
-Proof. exact parse_repr. Qed.
+    (forall f, if ffinite f
+               then float_token (frepr f) = true /\ fparse (frepr f) = Some f
+               else nonfinite_text (frepr f) = true) ->
+    forall v, accepted F frepr fparse printable v -> swf F v = true ->
+      parse F fparse (repr F frepr printable v) = Some v /\
+      eval_var F frepr fparse printable (repr F frepr printable v) = Some v.
+Proof. exact accepted_roundtrip. Qed.
 
-(* Restart: with the variables [vs] stored at first start and [cli] given
-   again on the command line, the loader succeeds and every name has the
+(* The acceptance check refuses nothing it should keep: the canonical text of
+   every value with finite floats is accepted (and read as that value). *)
+Theorem c37_finite_values_accepted :
+  forall (F : Type) (frepr : F -> text) (fparse : text -> option F)
+         (printable : Z -> bool) (ffinite : F -> bool),
+    (forall f, if ffinite f
+               then float_token (frepr f) = true /\ fparse (frepr f) = Some f
+               else nonfinite_text (frepr f) = true) ->
+    forall v, vwf F ffinite v = true ->
+      eval_var F frepr fparse printable (repr F frepr printable v) = Some v.
+Proof. exact finite_accepted. Qed.
+
+(* Restart: with the accepted variables [vs] stored at first start and [cli]
+   given again on the command line, the loader succeeds and every name has the
    command-line value if there is one (precedence), else the original value. *)
 Theorem c37_restart_restores_and_cli_wins :
   forall (F : Type) (frepr : F -> text) (fparse : text -> option F)
          (printable : Z -> bool) (ffinite : F -> bool),
-    (forall f, ffinite f = true ->
-       float_token (frepr f) = true /\ fparse (frepr f) = Some f) ->
-    forall vs, vars_wf F ffinite vs = true -> forall cli,
-      exists tv, restart F fparse cli (store F frepr printable vs) = Some tv /\
+    (forall f, if ffinite f
+               then float_token (frepr f) = true /\ fparse (frepr f) = Some f
+               else nonfinite_text (frepr f) = true) ->
+    forall vs, vars_ok F frepr fparse printable vs -> forall cli,
+      exists tv, restart F frepr fparse printable cli (store F frepr printable vs) = Some tv /\
         forall k, assoc Nat.eqb k tv =
                   match assoc Nat.eqb k cli with Some v => Some v | None => assoc Nat.eqb k vs end.
 Proof. exact restart_store. Qed.
 
 (* a name given again on the command line is not even evaluated from the DB *)
 Theorem c37_cli_precedence :
-  forall (F : Type) (fparse : text -> option F) tv k v s rows,
+  forall (F : Type) (frepr : F -> text) (fparse : text -> option F) (printable : Z -> bool)
+         tv k v s rows,
     assoc Nat.eqb k tv = Some v ->
-    restart F fparse tv ((k, s) :: rows) = restart F fparse tv rows.
+    restart F frepr fparse printable tv ((k, s) :: rows) = restart F frepr fparse printable tv rows.
 Proof. exact restart_overridden. Qed.
 
-(* The property as written, without the finiteness restriction: *)
-Definition c37_roundtrip_all_floats : Prop :=
-  forall (F : Type) (frepr : F -> text) (fparse : text -> option F) (printable : Z -> bool)
-         (v : pyval F),
-    vwf F (fun _ => true) v = true ->          (* code points in range; any float *)
-    parse F fparse (repr F frepr printable v) = Some v.
-
-(* It is FALSE of the faithful model and of the code (corpus "witness-inf":
-   -s X=1e999 is accepted, float inf has repr "inf", which literal_eval
-   rejects): floats = their repr text, value = the float whose repr is inf. *)
-Definition c37_inf : text := [105; 110; 102]%Z.
-Theorem c37_roundtrip_all_floats_refuted : ~ c37_roundtrip_all_floats.
+(* Regression statement for the former findings (before 7f9125e these values
+   were accepted and the restart then failed): a value containing the float
+   whose repr is inf is refused at first start, whatever text it is written as
+   and whatever float() and isprintable are (corpus "witness-inf"). *)
+Theorem c37_nonfinite_rejected :
+  forall (fparse : text -> option text) (printable : Z -> bool) s,
+    eval_var text (fun t => t) fparse printable s <> Some (VFloat t_inf) /\
+    eval_var text (fun t => t) fparse printable s <> Some (VList [VInt 1%Z; VFloat t_inf]).
 Proof.
-  intros H.
-  specialize (H text (fun t => t) (fun t => Some t) (fun _ => true) (VFloat c37_inf) eq_refl).
-  vm_compute in H. discriminate.
+  intros fparse printable s. unfold eval_var. split;
+    (destruct (parse text fparse s) as [v|]; [|discriminate];
+     destruct (parse text fparse (repr text (fun t => t) printable v)) eqn:E; [|discriminate];
+     intros [= ->]; vm_compute in E; discriminate).
 Qed.
 
-(* ... and the restart then fails as a whole (InputError), whatever CPython's
-   float() and isprintable are: *)
-Theorem c37_inf_restart_fails :
-  forall (fparse : text -> option text) (printable : Z -> bool) others,
-    restart text fparse [] (store text (fun t => t) printable ((0, VFloat c37_inf) :: others)) = None.
-Proof. intros. reflexivity. Qed.
+(* ---- non-vacuity: H_float is satisfiable, values are accepted, and the
+   theorems apply to a nested value with every kind of string escape ---- *)
+(* a two-float world: true is the float 1.5e-07, false is inf *)
+Definition c37_ex_tok : text := [49; 46; 53; 101; 45; 48; 55]%Z.      (* 1.5e-07 *)
+Definition c37_ex_frepr (b : bool) : text := if b then c37_ex_tok else t_inf.
+Definition c37_ex_ffinite (b : bool) : bool := b.
+Definition c37_ex_fparse (t : text) : option bool := if text_eqb t c37_ex_tok then Some true else None.
+Example c37_ex_H_float : forall f,
+  if c37_ex_ffinite f
+  then float_token (c37_ex_frepr f) = true /\ c37_ex_fparse (c37_ex_frepr f) = Some f
+  else nonfinite_text (c37_ex_frepr f) = true.
+Proof. intros [|]; vm_compute; auto. Qed.
 
-(* ---- non-vacuity: H_float is satisfiable and the theorem applies to a
-   nested value with every kind of string escape ---- *)
-Definition c37_ex_frepr (t : text) : text := t.
-Definition c37_ex_fparse (t : text) : option text := if float_token t then Some t else None.
-Definition c37_ex_ffinite (t : text) : bool := float_token t.
-Example c37_ex_H_float : forall f, c37_ex_ffinite f = true ->
-  float_token (c37_ex_frepr f) = true /\ c37_ex_fparse (c37_ex_frepr f) = Some f.
-Proof. unfold c37_ex_ffinite, c37_ex_frepr, c37_ex_fparse. intros f ->. auto. Qed.
-
-Definition c37_ex_val : pyval text :=
+Definition c37_ex_val : pyval bool :=
   VDict [(VStr [97; 39; 34; 92; 10; 0; 127; 160; 233; 8232; 55296; 128512; 917505]%Z,
           VList [VInt (-12345678901234567890123456789012345678901234567890)%Z;
-                 VFloat [49; 46; 53; 101; 45; 48; 55]%Z;      (* 1.5e-07 *)
-                 VNone; VBool true; VTuple [VInt 1%Z]; VTuple []; VSet [];
+                 VFloat true; VNone; VBool true; VTuple [VInt 1%Z]; VTuple []; VSet [];
                  VSet [VInt 1%Z; VStr []]; VDict []])].
-Example c37_ex_wf : vwf text c37_ex_ffinite c37_ex_val = true.
+Definition c37_ex_printable (c : Z) : bool := negb (mem Z.eqb c [160; 8232; 55296; 917505]%Z).
+Example c37_ex_wf : vwf bool c37_ex_ffinite c37_ex_val = true /\ swf bool c37_ex_val = true.
+Proof. vm_compute. auto. Qed.
+Example c37_ex_accepted :
+  eval_var bool c37_ex_frepr c37_ex_fparse c37_ex_printable
+           (repr bool c37_ex_frepr c37_ex_printable c37_ex_val) = Some c37_ex_val.
 Proof. vm_compute. reflexivity. Qed.
-Example c37_ex_roundtrip :
-  parse text c37_ex_fparse (repr text c37_ex_frepr (fun c => negb (mem Z.eqb c [160; 8232; 55296; 917505]%Z)) c37_ex_val)
-  = Some c37_ex_val.
+(* the text 1e999 reads as the float inf (float() of it is inf), whose repr is
+   not readable: refused at first start *)
+Example c37_ex_inf_rejected :
+  eval_var bool c37_ex_frepr (fun t => Some false) c37_ex_printable [49; 101; 57; 57; 57]%Z = None.
 Proof. vm_compute. reflexivity. Qed.
